@@ -1,15 +1,15 @@
-\* exhaustive design model, LSR: 3 slopes x 3 intercepts x 21 reactions x 7 x 7 parts, 2 temperatures, <= 2 calls
+\* quick: exhaustive design model, LSR: 2 slopes x 2 intercepts x 6 reactions x 5 x 5 parts, 2 temperatures, <= 2 calls
 SPECIFICATION Spec
 CONSTANTS
-  Slopes <- MCSlopes
-  Icpts <- MCIcpts
-  Energies <- MCEnergies
+  Slopes <- MCSlopes2
+  Icpts <- MCIcpts2
+  Energies <- MCEnergies2
   Temps = {250, 500}
   MaxN = 1
   MaxOps = 2
   Variant = "required"
   Kinds = {"lsr"}
-  Stoichs = {1, 2}
+  Stoichs = {2}
   ExtParts <- MCExtParts
 INVARIANT NeverRaises
 INVARIANT RelationHolds
